@@ -341,3 +341,85 @@ Theorem encode_cur_witnesses :
   soft_encode ilog2_exact pow2_exact fmt64 false (FFin false 1 (-1074)) = Some 0x0008000000000000 /\
   spec_encode fmt64 (FFin false 1 (-1074)) = 1.
 Proof. repeat split; vm_compute; reflexivity. Qed.
+(* ---- the statements of Properties_C19.v that combine several of the theorems above *)
+Definition full_statement (fixsub fixsel : bool) : Prop :=
+  forall ilog2f ilog2d pow2 pow2f,
+  libm_ok fmt32 ilog2f pow2 pow2f ->          (* logf, pow, powf *)
+  libm_ok fmt64 ilog2d pow2 pow2 ->           (* log, pow *)
+  (forall c_use img, 0 <= img < 2 ^ 32 -> is_nan _ _ (b32_of_bits img) = false ->
+     ieee_encode ilog2f pow2 fmt32 fixsub c_use host32 img = Some img) /\
+  (forall c_use img, 0 <= img < 2 ^ 64 -> is_nan _ _ (b64_of_bits img) = false ->
+     ieee_encode ilog2d pow2 fmt64 fixsub c_use host64 img = Some img) /\
+  (forall c_use bits, 0 <= bits < 2 ^ 32 ->
+     ieee_decode pow2 pow2f fmt32 c_use host32 bits = Some (fval_of_b32 (b32_of_bits bits))) /\
+  (forall c_use bits, 0 <= bits < 2 ^ 64 ->
+     ieee_decode pow2 pow2 fmt64 c_use host64 bits = Some (fval_of_b64 (b64_of_bits bits))) /\
+  (forall use, use_C_ieee754 fixsel 0 true true true true true use = (1, use)).
+
+
+Lemma full_repaired : full_statement true true.
+Proof.
+  intros ilog2f ilog2d pow2 pow2f H32 H64. split; [| split; [| split; [| split]]].
+  - intros; apply (any_mode_encode32 ilog2f pow2 pow2f H32); assumption.
+  - intros; apply (any_mode_encode64 ilog2d pow2 pow2 H64); assumption.
+  - intros; apply (any_mode_decode32 ilog2f pow2 pow2f H32); assumption.
+  - intros; apply (any_mode_decode64 ilog2d pow2 pow2 H64); assumption.
+  - intros use. exact (proj2 (selection_fixed use)).
+Qed.
+
+Lemma full_cur_refuted : ~ full_statement false false /\ ~ full_statement false true /\ ~ full_statement true false.
+Proof.
+  assert (Hsub : forall fixsel, ~ full_statement false fixsel).
+  { intros fixsel H. destruct (H _ _ _ _ (libm_exact_ok fmt32 fmt32_ok) (libm_exact_ok fmt64 fmt64_ok)) as (He & _).
+    specialize (He false 1 ltac:(split; [discriminate | reflexivity]) eq_refl). vm_compute in He. discriminate. }
+  split; [apply Hsub | split; [apply Hsub |]].
+  intros H. destruct (H _ _ _ _ (libm_exact_ok fmt32 fmt32_ok) (libm_exact_ok fmt64 fmt64_ok)) as (_ & _ & _ & _ & Hs).
+  specialize (Hs true). discriminate.
+Qed.
+
+Lemma decode_both :
+  (forall ilog2 pow2 pow2s, libm_ok fmt32 ilog2 pow2 pow2s ->
+   forall bits, 0 <= bits < 2 ^ 32 -> soft_decode pow2 pow2s fmt32 bits = Some (fval_of_b32 (b32_of_bits bits))) /\
+  (forall ilog2 pow2 pow2s, libm_ok fmt64 ilog2 pow2 pow2s ->
+   forall bits, 0 <= bits < 2 ^ 64 -> soft_decode pow2 pow2s fmt64 bits = Some (fval_of_b64 (b64_of_bits bits))).
+Proof. split; [exact decode32 | exact decode64]. Qed.
+
+Lemma encode_both :
+  (forall ilog2 pow2 pow2s, libm_ok fmt32 ilog2 pow2 pow2s ->
+   forall x : binary32, is_nan _ _ x = false -> soft_encode ilog2 pow2 fmt32 true (fval_of_b32 x) = Some (bits_of_b32 x)) /\
+  (forall ilog2 pow2 pow2s, libm_ok fmt64 ilog2 pow2 pow2s ->
+   forall x : binary64, is_nan _ _ x = false -> soft_encode ilog2 pow2 fmt64 true (fval_of_b64 x) = Some (bits_of_b64 x)).
+Proof. split; [exact encode32 | exact encode64]. Qed.
+
+Lemma encode_cur_partial_both :
+  (forall ilog2 pow2 pow2s, libm_ok fmt32 ilog2 pow2 pow2s ->
+   forall x : binary32, is_nan _ _ x = false -> not_deep 23 (B2FF _ _ x) ->
+   soft_encode ilog2 pow2 fmt32 false (fval_of_b32 x) = Some (bits_of_b32 x)) /\
+  (forall ilog2 pow2 pow2s, libm_ok fmt64 ilog2 pow2 pow2s ->
+   forall x : binary64, is_nan _ _ x = false -> not_deep 52 (B2FF _ _ x) ->
+   soft_encode ilog2 pow2 fmt64 false (fval_of_b64 x) = Some (bits_of_b64 x)).
+Proof. split; [exact encode32_cur_partial | exact encode64_cur_partial]. Qed.
+
+Lemma roundtrip_all :
+  (forall ilog2 pow2 pow2s, libm_ok fmt32 ilog2 pow2 pow2s ->
+   forall x : binary32, is_nan _ _ x = false ->
+   exists b, soft_encode ilog2 pow2 fmt32 true (fval_of_b32 x) = Some b /\ 0 <= b < 2 ^ 32 /\
+             soft_decode pow2 pow2s fmt32 b = Some (fval_of_b32 x)) /\
+  (forall ilog2 pow2 pow2s, libm_ok fmt64 ilog2 pow2 pow2s ->
+   forall x : binary64, is_nan _ _ x = false ->
+   exists b, soft_encode ilog2 pow2 fmt64 true (fval_of_b64 x) = Some b /\ 0 <= b < 2 ^ 64 /\
+             soft_decode pow2 pow2s fmt64 b = Some (fval_of_b64 x)) /\
+  (forall ilog2 pow2 pow2s, libm_ok fmt32 ilog2 pow2 pow2s ->
+   forall b, 0 <= b < 2 ^ 32 -> is_nan _ _ (b32_of_bits b) = false ->
+   exists v, soft_decode pow2 pow2s fmt32 b = Some v /\ soft_encode ilog2 pow2 fmt32 true v = Some b) /\
+  (forall ilog2 pow2 pow2s, libm_ok fmt64 ilog2 pow2 pow2s ->
+   forall b, 0 <= b < 2 ^ 64 -> is_nan _ _ (b64_of_bits b) = false ->
+   exists v, soft_decode pow2 pow2s fmt64 b = Some v /\ soft_encode ilog2 pow2 fmt64 true v = Some b).
+Proof. split; [exact roundtrip_value32 | split; [exact roundtrip_value64 | split; [exact roundtrip_bits32 | exact roundtrip_bits64]]]. Qed.
+
+Lemma layout_is_flocq :
+  (forall bits, 0 <= bits -> spec_decode fmt32 bits = fval_of_b32 (b32_of_bits bits)) /\
+  (forall bits, 0 <= bits -> spec_decode fmt64 bits = fval_of_b64 (b64_of_bits bits)) /\
+  (forall x : binary32, is_nan _ _ x = false -> spec_encode fmt32 (fval_of_b32 x) = bits_of_b32 x) /\
+  (forall x : binary64, is_nan _ _ x = false -> spec_encode fmt64 (fval_of_b64 x) = bits_of_b64 x).
+Proof. repeat split; [exact b32_bridge | exact b64_bridge | exact b32_bridge_enc | exact b64_bridge_enc]. Qed.
